@@ -547,8 +547,17 @@ def pure_locals(fnode, keep=()):
         if sum(1 for _ in ast.walk(v)) > 40:
             continue
         ok = True
+        # the class of an object does not change when its attributes are stored: X.__class__ / type(X) read nothing mutable of X
+        immune = set()
+        for x in ast.walk(v):
+            if isinstance(x, ast.Attribute) and x.attr == '__class__' and isinstance(x.value, ast.Name):
+                immune.add(id(x.value))
+            if isinstance(x, ast.Call) and isinstance(x.func, ast.Name) and x.func.id == 'type' and len(x.args) == 1 and isinstance(x.args[0], ast.Name):
+                immune.add(id(x.args[0]))
         for x in ast.walk(v):
             if isinstance(x, ast.Name):
+                if id(x) in immune and x.id in params:
+                    continue
                 if x.id == name:
                     ok = False
                 later = [l for l in bind_lines.get(x.id, []) if l > st.lineno]
